@@ -159,6 +159,16 @@ def check_accept(t, v, bs):
         return 'bytes-aliased/' + sig(t, v), 'after the caller changed the list bytes() returned, bytes()=%r expected %r' % (
             b2[:16], keep[:16])
     core.scribble(d)
+    if t == 'sequencer_specific':
+        # the payload items are bytes (0..255), also when the message is extended in place
+        try:
+            ext = build(t, v, time=0)
+            ext.data += (255, 128)
+            ext.data = ext.data + (0,)
+            if list(ext.data) != list(v) + [255, 128, 0] or list(ext.bytes()[-3:]) != [255, 128, 0]:
+                return 'extend/' + sig(t, v), 'after data += (255, 128); data = data + (0,): %r' % (ext.data[-6:],)
+        except Exception as e:
+            return 'extend-raises/' + sig(t, v), 'data += (255, 128) raised %r' % (e,)
     return None
 
 
